@@ -397,6 +397,34 @@ def _is_section_header(line):
     return s.startswith(('else', 'finally', 'except', 'elif')) and ':' in s
 
 
+def family_flags(pre, op):
+    """Input predicates (pre-state + request) naming the known-finding families of C04 / C07."""
+    P = set()
+    r = elements_of(pre, op)
+    if r is None:
+        return P
+    elems, cont, field, where = r
+    stmt_level = (isinstance(elems, list) and elems and all(isinstance(e, (ast.stmt, ast.ExceptHandler, ast.match_case)) for e in elems)) \
+        or field in ('body', 'orelse', 'finalbody', 'handlers', 'cases') or op['k'] in ('put_docstr', 'put_line_comment')
+    P.add('stmt_level' if stmt_level else 'expr_level')
+    if stmt_level and isinstance(elems, list) and elems and field in ('orelse', 'finalbody') and cont is not None:
+        lst = getattr(cont, field, None)
+        if isinstance(lst, list) and len(lst) == len(elems):
+            P.add('empties_optional_block')
+    if not stmt_level and cont is not None:
+        x = pre.extent(cont)
+        if x is None and op.get('path'):
+            par = resolve(pre.tree, [tuple(p) for p in op['path'][:-1]])
+            x = pre.extent(par) if par is not None and not isinstance(par, ast.Module) else None
+        if x is not None:
+            sl, sc, el, ec = x
+            if isinstance(cont, ast.expr):
+                sl, sc, el, ec = pre.widen_over_parens(sl, sc, el, ec)
+            if any(t.type == tokenize.COMMENT and (sl, sc) <= t.start <= (el, 10 ** 9) for t in pre.toks):
+                P.add('container_holds_comments')
+    return P
+
+
 def uniq_tokens(src):
     try:
         tk = list(tokenize.generate_tokens(io.StringIO(src).readline))
@@ -469,7 +497,9 @@ class C04(Plugin):
         return {'predicates': sorted(getattr(self, 'last_P', ()))}
 
     def family_flags(self, pre, op):
-        """Input predicates (pre-state + request) naming the known-finding families of C04."""
+        return family_flags(pre, op)
+
+    def _unused(self, pre, op):
         P = set()
         r = elements_of(pre, op)
         if r is None:
